@@ -241,7 +241,7 @@ func (x *Exec) Run(lines []string) {
 		}
 		if x.C == nil && x.genLine != nil {
 			switch f[0] {
-			case "BLOCK", "Q", "DUMP", "PAGE", "EXPORT":
+			case "BLOCK", "Q", "DUMP", "PAGE", "EXPORTIMPORT":
 				x.genesis(x.genLine)
 			}
 		}
@@ -329,6 +329,13 @@ func (x *Exec) Run(lines []string) {
 		case "ENDBLOCK":
 			x.C.EndBlockCommit()
 			x.Out.Decl("%s", l)
+			for _, m := range x.Mons {
+				m.AfterBlock(x)
+			}
+		case "EXPORTIMPORT":
+			r := x.C.ExportImport()
+			x.Out.Cmd(l, strings.Join(strings.Split(r, " ")[:2], " "))
+			x.Stats["exportimport:"+r]++
 			for _, m := range x.Mons {
 				m.AfterBlock(x)
 			}
